@@ -604,6 +604,11 @@ int __wrap_nanosleep(const struct timespec *req, struct timespec *rem) {
     vs_schedule();
     return 0;
 }
+int __real_posix_memalign(void **, size_t, size_t);
+int __wrap_posix_memalign(void **out, size_t align, size_t size) {
+    vs_point(); /* obtaining a page from the system: a natural preemption point inside library critical sections */
+    return __real_posix_memalign(out, align, size);
+}
 pthread_t __wrap_pthread_self(void) {
     return __real_pthread_self();
 }
@@ -748,6 +753,7 @@ static void vs_run_child(vs_scenario_fn scenario, char **lines, int nlines) {
     vs_nchoice = 0;
     vs_debug = getenv("VS_DEBUG") != NULL;
     aws_verif_atomic_hook = vs_atomic_hook;
+    vh_alloc_point = vs_point;
     vs_is_active = true;
     scenario(lines, nlines);
     /* every thread the scenario (or the library on its behalf) created must have exited by now */
